@@ -39,9 +39,14 @@ class FakePool:
     def __exit__(self, *a):
         return False
 
+    mode = 'shuffle'      # 'shuffle' (seeded), 'genome' (submission order) or 'reversed'
+
     def imap_unordered(self, fn, it, chunksize=1):
         res = [fn(x) for x in it]
-        FakePool.order_rng.shuffle(res)
+        if FakePool.mode == 'shuffle':
+            FakePool.order_rng.shuffle(res)
+        elif FakePool.mode == 'reversed':
+            res.reverse()
         return iter(res)
 
     def imap(self, fn, it, chunksize=1):
@@ -101,6 +106,11 @@ def gen_bam(rng, in_pre=True):
                    mp={'mp_multi': 'multi', 'mp_unique': 'unique'}.get(kind, ''), key=rng.choice(['ref', 'alt', 'alt', 'None']),
                    clip=rng.choice([0, 0, 0, 2, 5]),
                    proper=rng.random() < 0.8)
+        if rng.random() < 0.25 and site + 1 < ln and kind == 'good':      # a second molecule of the same cell next to it
+            r2 = dict(r, name='m%dn' % t, site=site + 1)
+            r2['rstart'] = max(0, min(ln - rlen, site + 1))
+            r2['rend'] = r2['rstart'] + rlen
+            recs.append(r2)
         if rng.random() < 0.08:       # no DS tag: the site is the start of the (forward) alignment
             r.update(nods=True, site=r['rstart'])
         recs.append(r)
@@ -180,6 +190,7 @@ def run_counts(bbc, path, cfg, pool, threads, order_seed):
     extra = {} if kwargs is None else {'kwargs': kwargs}        # "none": the documented default of generate_commands
     raised, rows = '', []
     FakePool.order_rng = random.Random(order_seed)
+    FakePool.mode = {-1: 'genome', -2: 'reversed'}.get(order_seed, 'shuffle')      # order_seed -1 / -2: fixed completion orders
     multiprocessing.Pool = FakePool if pool == 'fake' else REAL_POOL
     try:
         with contextlib.redirect_stdout(io.StringIO()):
@@ -292,6 +303,29 @@ def main():
                     state['group'] += 1
                     for c in cfgs:
                         run(dict(c, skip=[]), 'fake', 1, rng.randrange(1 << 30))
+            # (1b) directed job-boundary cases (independent of the seed): a molecule whose site lies EXACTLY on the boundary
+            # between two jobs plus a second molecule of the same cell in the same bin (owned by the later job); every
+            # boundary of several job widths, results completing in genome order and in reversed order, one and two BAMs
+            for nfiles in (1, 2):
+                binsz, ln = 5, 60
+                recs = []
+                for k, site in enumerate(range(5, 60, 5)):        # every multiple of the bin size is a job boundary for bpj=1
+                    recs.append(mk_rec('d%da' % k, 'chr1', site, site, 3, sample='cellA', mapq=60, key='ref'))
+                    recs.append(mk_rec('d%db' % k, 'chr1', site + 1, site + 1, 3, sample='cellA', mapq=60, key='ref'))
+                    if k % 2:                                     # alignment starting before the boundary, site on it
+                        recs.append(mk_rec('d%dc' % k, 'chr1', site, site - 2, 3, sample='cellB', mapq=60, key='alt'))
+                    if nfiles == 2:                               # another library: other cells in the same bins
+                        recs.append(mk_rec('d%dx' % k, 'chr1', site, site, 3, sample='lib2_cellA', mapq=60, key='ref', file=2))
+                        recs.append(mk_rec('d%dy' % k, 'chr1', site + 2, site + 2, 3, sample='lib2_cellA', mapq=60, key='ref', file=2))
+                bam = {'contigs': ['chr1', 'chr11'], 'lens': [ln, 20], 'nfiles': nfiles, 'recs': recs}
+                path = state['path'] = write_bams(tmp, bam)
+                emit(dict(bam, ev='bam', source='directed_job_boundaries', seed=seed, bam_index=-nfiles))
+                for mfs in (2, 0):
+                    state['group'] += 1
+                    base = {'bin': binsz, 'mfs': mfs, 'minmq': 0, 'dedup': True, 'kwargs': 'empty', 'usekey': False, 'skip': []}
+                    for bpj in (1, 2, 3, 4, 12):
+                        for order in (-1, -2):
+                            run(dict(base, bpj=bpj), 'fake', 1, order)
             # (2) random BAMs x job partitions x schedules
             nbam, npart, nreal = (40, 8, 1) if tier == 'quick' else (600, 16, 2)
             for b in range(nbam):
